@@ -1,9 +1,12 @@
-(* C01/ProofsHistory.v -- the initial state is well formed; every PROVED call constructor
-   preserves WF; histories of proved calls preserve WF; refutation witnesses. *)
+(* C01/ProofsHistory.v -- the initial state satisfies the invariant; every PROVED call constructor
+   preserves it; histories of proved calls preserve it; refutation witnesses.
+   Invariant carried through histories: WF (the property) /\ parents_ok (parent pointers of live
+   nodes point to allocated ids -- an auxiliary fact needed by the creation calls, ProofsCreate.v). *)
 From Coq Require Import ZArith List Bool PArith FMapPositive Lia.
 From XV Require Import C01.Model C01.Spec C01.ProofsBase C01.ProofsWfb C01.ProofsFrame C01.ProofsUses
   C01.ProofsOperands C01.ProofsRauw C01.ProofsSetOperands C01.ProofsSetSuccessors C01.ProofsDll C01.ProofsOps
-  C01.ProofsBlocks C01.ProofsOpRegions C01.ProofsMove C01.ProofsOpLists C01.ProofsBlockLists C01.ProofsArgs.
+  C01.ProofsBlocks C01.ProofsOpRegions C01.ProofsMove C01.ProofsOpLists C01.ProofsBlockLists C01.ProofsArgs
+  C01.ProofsCreate C01.ProofsInv.
 Import ListNotations.
 Local Open Scope Z_scope.
 
@@ -16,15 +19,17 @@ Proof. apply wf_b_sound. vm_compute. reflexivity. Qed.
    correspondence check + evaluation of wf_b on the model after every call) *)
 Definition proved_call (c : call) : bool :=
   match c with
+  | COpCreate _ _ _ _ | CBlockNew _ _ | CRegionNew _ | CCreateBlock _ _ _ => true
   | CSetOperands _ _ | CSetSuccessors _ _ | COperandSetItem _ _ _ | CSuccessorSetItem _ _ _
   | CAddRegion _ _ | CDetachRegion _ _ | CDetachRegionIdx _ _
   | CReplaceAllUsesWith _ _ | CReplaceUsesWithIf _ _ _ | CValueErase _ _
   | CPrReplaceAllUsesWith _ _ _ | CPrReplaceUsesWithIf _ _ _
-  | CInsertOpAfter _ _ _ | CInsertOpBefore _ _ _ | CAddOp _ _ | CDetachOp _ _ | COpDetach _ => true
-  | CDetachBlock _ _ | CDetachBlockIdx _ _ | CMoveBlocks _ _ | CMoveBlocksBefore _ _ | CRwInlineRegion _ _ _ _ => true
+  | CInsertArg _ _ | CPrInsertBlockArgument _ _ | CEraseArg _ _ _ | CPrEraseBlockArgument _ _
+  | CInsertOpAfter _ _ _ | CInsertOpBefore _ _ _ | CAddOp _ _ | CDetachOp _ _ | COpDetach _
   | CAddOps _ _ | CInsertOpsBefore _ _ _ | CInsertOpsAfter _ _ _ | CRwInsertOp _ _ _ _ => true
-  | CInsertArg _ _ | CPrInsertBlockArgument _ _ | CEraseArg _ _ _ | CPrEraseBlockArgument _ _ => true
-  | CAddBlock _ _ | CInsertBlockBefore _ _ _ | CInsertBlockAfter _ _ _ | CInsertBlock _ _ _ | CRwInsertBlock _ _ _ => true
+  | CAddBlock _ _ | CInsertBlockBefore _ _ _ | CInsertBlockAfter _ _ _ | CInsertBlock _ _ _ | CRwInsertBlock _ _ _
+  | CDetachBlock _ _ | CDetachBlockIdx _ _ | CMoveBlocks _ _ | CMoveBlocksBefore _ _
+  | CRwInlineRegion _ _ _ _ | CRwMoveRegionContents _ _ => true
   | _ => false
   end.
 
@@ -36,18 +41,19 @@ Definition blk_in_live_region (s : state) (t : bid) : Prop :=
 (* "objects erased by a successful erase call are not used again", per constructor *)
 Definition args_live (s : state) (c : call) : Prop :=
   match c with
+  | CBlockNew ops _ => forall o, In o ops -> op_live s o
+  | CRegionNew blocks => forall b, In b blocks -> blk_live s b
+  | CCreateBlock r ib _ => reg_live s r /\ (forall t, ib = Some t -> blk_live s t)
   | CSetOperands o _ | CSetSuccessors o _ | COperandSetItem o _ _ | CSuccessorSetItem o _ _
-  | CDetachRegionIdx o _ => op_live s o
-  | CInsertOpAfter b _ ex | CInsertOpBefore b _ ex => blk_live s b /\ op_live s ex
-  | CAddOp b o | CDetachOp b o => blk_live s b /\ op_live s o
-  | COpDetach o => op_live s o /\
-                   (forall x b, PM.find o (s_ops s) = Some x -> o_parent x = Some b -> blk_live s b)
-  | CDetachBlock r b => reg_live s r /\ blk_live s b
-  | CDetachBlockIdx r _ => reg_live s r
+  | CDetachRegionIdx o _ | CAddRegion o _ => op_live s o
   | CInsertArg b _ | CPrInsertBlockArgument b _ => blk_live s b
   | CEraseArg b arg _ => blk_live s b /\ val_live s arg
   | CPrEraseBlockArgument arg _ =>
       val_live s arg /\ (forall vr b i, PM.find arg (s_values s) = Some vr -> v_kind vr = KArg b i -> blk_live s b)
+  | CInsertOpAfter b _ ex | CInsertOpBefore b _ ex => blk_live s b /\ op_live s ex
+  | CAddOp b o | CDetachOp b o => blk_live s b /\ op_live s o
+  | COpDetach o => op_live s o /\
+                   (forall x b, PM.find o (s_ops s) = Some x -> o_parent x = Some b -> blk_live s b)
   | CAddOps b ops => blk_live s b /\ (forall o, In o ops -> op_live s o)
   | CInsertOpsBefore b ops ex => blk_live s b /\ op_live s ex
   | CInsertOpsAfter b ops ex => blk_live s b /\ op_live s ex /\ (forall o, In o ops -> op_live s o)
@@ -60,10 +66,13 @@ Definition args_live (s : state) (c : call) : Prop :=
       (forall b, In b blocks -> blk_live s b)
   | CInsertBlock r blocks _ => reg_live s r /\ (forall b, In b blocks -> blk_live s b)
   | CRwInsertBlock blocks r ib => reg_live s r /\ (forall b, In b blocks -> blk_live s b) /\ (forall t, ib = Some t -> blk_live s t)
+  | CDetachBlock r b => reg_live s r /\ blk_live s b
+  | CDetachBlockIdx r _ => reg_live s r
   | CMoveBlocks r dest => reg_live s r /\ reg_live s dest
   | CMoveBlocksBefore r t => reg_live s r /\ blk_in_live_region s t
   | CRwInlineRegion _ r dest ib => reg_live s r /\ reg_live s dest /\
                                    match ib with Some t => blk_live s t | None => True end
+  | CRwMoveRegionContents _ r => reg_live s r
   | _ => True
   end.
 
@@ -90,112 +99,181 @@ Qed.
 
 (* one wrapper per proved constructor, all of the same shape *)
 Definition step_ok (c : call) : Prop := forall s s' p,
-  WF s -> proved_call c = true -> args_live s c -> do_call c s = (s', Ok p) -> WF s'.
+  WF s -> parents_ok s -> proved_call c = true -> args_live s c -> do_call c s = (s', Ok p) ->
+  WF s' /\ parents_ok s'.
 
-Ltac w_unit := intros s s' p W PC AL E; simpl in E, AL; apply unit_ok in E.
-Ltac w_lift := intros s s' p W PC AL E; simpl in E, AL; apply lift_ok in E as (a & E).
+Ltac w_unit := intros s s' p W PO PC AL E; simpl in E, AL; apply unit_ok in E.
+Ltac w_lift := intros s s' p W PO PC AL E; simpl in E, AL; apply lift_ok in E as (a & E).
+Ltac p_nobody lem := eapply parents_ok_by_nobody; [apply lem|eassumption|eassumption].
 
 Lemma W_CSetOperands : forall o new, step_ok (CSetOperands o new).
-Proof. intros o new. w_unit. exact (set_operands_WF _ _ _ _ _ W AL E). Qed.
+Proof. intros o new. w_unit. split; [exact (set_operands_WF _ _ _ _ _ W AL E)|p_nobody set_operands_par]. Qed.
 Lemma W_CSetSuccessors : forall o new, step_ok (CSetSuccessors o new).
-Proof. intros o new. w_unit. exact (set_successors_WF _ _ _ _ _ W AL E). Qed.
+Proof. intros o new. w_unit. split; [exact (set_successors_WF _ _ _ _ _ W AL E)|p_nobody set_successors_par]. Qed.
 Lemma W_COperandSetItem : forall o i v, step_ok (COperandSetItem o i v).
-Proof. intros o i v. w_unit. exact (operands_setitem_WF _ _ _ _ _ _ W AL E). Qed.
+Proof. intros o i v. w_unit. split; [exact (operands_setitem_WF _ _ _ _ _ _ W AL E)|p_nobody operands_setitem_par]. Qed.
 Lemma W_CSuccessorSetItem : forall o i v, step_ok (CSuccessorSetItem o i v).
-Proof. intros o i v. w_unit. exact (successors_setitem_WF _ _ _ _ _ _ W AL E). Qed.
+Proof. intros o i v. w_unit. split; [exact (successors_setitem_WF _ _ _ _ _ _ W AL E)|p_nobody successors_setitem_par]. Qed.
 Lemma W_CAddRegion : forall o r, step_ok (CAddRegion o r).
-Proof. intros o r. w_unit. exact (add_region_WF_gen _ _ _ _ _ W E). Qed.
+Proof. intros o r. w_unit. split; [exact (add_region_WF_gen _ _ _ _ _ W E)|exact (parents_ok_by_op _ o _ _ _ (add_region_par _ _ o r) W PO AL E)]. Qed.
 Lemma W_CDetachRegion : forall o r, step_ok (CDetachRegion o r).
-Proof. intros o r. w_lift. exact (detach_region_WF_gen _ _ _ _ _ W E). Qed.
+Proof. intros o r. w_lift. split; [exact (detach_region_WF_gen _ _ _ _ _ W E)|p_nobody detach_region_par]. Qed.
 Lemma W_CDetachRegionIdx : forall o i, step_ok (CDetachRegionIdx o i).
-Proof. intros o i. w_lift. exact (detach_region_idx_WF _ _ _ _ _ W AL E). Qed.
+Proof. intros o i. w_lift. split; [exact (detach_region_idx_WF _ _ _ _ _ W AL E)|p_nobody detach_region_idx_par]. Qed.
+Lemma W_CReplaceAllUsesWith : forall v w, step_ok (CReplaceAllUsesWith v w).
+Proof. intros v w. w_unit. split; [exact (replace_all_uses_with_WF _ _ _ _ _ W E)|p_nobody replace_all_uses_with_par]. Qed.
+Lemma W_CReplaceUsesWithIf : forall v w sel, step_ok (CReplaceUsesWithIf v w sel).
+Proof. intros v w sel. w_unit. split; [exact (replace_uses_with_if_WF _ _ _ _ _ _ W E)|p_nobody replace_uses_with_if_par]. Qed.
+Lemma W_CValueErase : forall v safe, step_ok (CValueErase v safe).
+Proof. intros v safe. w_unit. split; [exact (value_erase_WF _ _ _ _ _ W E)|p_nobody value_erase_par]. Qed.
+Lemma W_CPrReplaceAllUsesWith : forall v w safe, step_ok (CPrReplaceAllUsesWith v w safe).
+Proof. intros v w safe. w_unit. split; [exact (pr_replace_all_uses_with_WF _ _ _ _ _ _ W E)|p_nobody pr_replace_all_uses_with_par]. Qed.
+Lemma W_CPrReplaceUsesWithIf : forall v w sel, step_ok (CPrReplaceUsesWithIf v w sel).
+Proof. intros v w sel. w_unit. split; [exact (pr_replace_uses_with_if_WF _ _ _ _ _ _ W E)|p_nobody pr_replace_uses_with_if_par]. Qed.
+Lemma W_CInsertArg : forall b i, step_ok (CInsertArg b i).
+Proof. intros b i. w_lift. split; [exact (insert_arg_WF _ _ _ _ _ W AL E)|p_nobody insert_arg_par]. Qed.
+Lemma W_CPrInsertBlockArgument : forall b i, step_ok (CPrInsertBlockArgument b i).
+Proof. intros b i. w_lift. split; [exact (insert_arg_WF _ _ _ _ _ W AL E)|p_nobody insert_arg_par]. Qed.
+Lemma W_CEraseArg : forall b v safe, step_ok (CEraseArg b v safe).
+Proof. intros b v safe. w_unit. split; [exact (erase_arg_WF _ _ _ _ _ _ W (proj1 AL) (proj2 AL) E)|p_nobody erase_arg_par]. Qed.
+Lemma W_CInsertOpAfter : forall b n e, step_ok (CInsertOpAfter b n e).
+Proof. intros b n e. w_unit. split; [exact (insert_op_after_WF _ _ _ _ _ _ W (proj1 AL) (proj2 AL) E)|exact (parents_ok_by_block _ b _ _ _ (insert_op_after_par _ _ b n e) W PO (proj1 AL) E)]. Qed.
+Lemma W_CInsertOpBefore : forall b n e, step_ok (CInsertOpBefore b n e).
+Proof. intros b n e. w_unit. split; [exact (insert_op_before_WF _ _ _ _ _ _ W (proj1 AL) (proj2 AL) E)|exact (parents_ok_by_block _ b _ _ _ (insert_op_before_par _ _ b n e) W PO (proj1 AL) E)]. Qed.
+Lemma W_CAddOp : forall b o, step_ok (CAddOp b o).
+Proof. intros b o. w_unit. split; [exact (add_op_WF _ _ _ _ _ W (proj1 AL) (proj2 AL) E)|exact (parents_ok_by_block _ b _ _ _ (add_op_par _ _ b o) W PO (proj1 AL) E)]. Qed.
+Lemma W_CDetachOp : forall b o, step_ok (CDetachOp b o).
+Proof. intros b o. w_lift. split; [exact (detach_op_WF _ _ _ _ _ W (proj1 AL) (proj2 AL) E)|p_nobody detach_op_par]. Qed.
+Lemma W_CAddOps : forall b ops, step_ok (CAddOps b ops).
+Proof. intros b ops. w_unit. split; [exact (add_ops_WF _ _ _ _ _ W (proj1 AL) (proj2 AL) E)|exact (parents_ok_by_block _ b _ _ _ (add_ops_par _ _ b ops) W PO (proj1 AL) E)]. Qed.
+Lemma W_CInsertOpsBefore : forall b ops e, step_ok (CInsertOpsBefore b ops e).
+Proof. intros b ops e. w_unit. split; [exact (insert_ops_before_WF _ _ _ _ _ _ W (proj1 AL) (proj2 AL) E)|exact (parents_ok_by_block _ b _ _ _ (insert_ops_before_par _ _ b ops e) W PO (proj1 AL) E)]. Qed.
+Lemma W_CInsertOpsAfter : forall b ops e, step_ok (CInsertOpsAfter b ops e).
+Proof. intros b ops e. w_unit. split; [exact (insert_ops_after_WF _ _ _ _ _ _ W (proj1 AL) (proj1 (proj2 AL)) (proj2 (proj2 AL)) E)|exact (parents_ok_by_block _ b _ _ _ (insert_ops_after_par _ _ b ops e) W PO (proj1 AL) E)]. Qed.
+Lemma W_CRwInsertOp : forall pr ops b ib, step_ok (CRwInsertOp pr ops b ib).
+Proof. intros pr ops b ib. w_unit. split; [exact (rw_insert_op_WF _ _ _ _ _ _ W (proj1 AL) (proj1 (proj2 AL)) (proj2 (proj2 AL)) E)|exact (parents_ok_by_block _ b _ _ _ (rw_insert_op_par _ _ ops b ib) W PO (proj1 AL) E)]. Qed.
+Lemma W_CAddBlock : forall r blocks, step_ok (CAddBlock r blocks).
+Proof. intros r blocks. w_unit. split; [exact (add_block_WF _ _ _ _ _ W (proj1 AL) (proj2 AL) E)|exact (parents_ok_by_region _ r _ _ _ (add_block_par _ _ r blocks) W PO (proj1 AL) E)]. Qed.
+Lemma W_CInsertBlockBefore : forall r blocks t, step_ok (CInsertBlockBefore r blocks t).
+Proof. intros r blocks t. w_unit. split; [exact (insert_block_before_WF _ _ _ _ _ _ W (proj1 AL) (proj1 (proj2 AL)) (proj2 (proj2 AL)) E)|exact (parents_ok_by_region _ r _ _ _ (insert_block_before_par _ _ r blocks t) W PO (proj1 AL) E)]. Qed.
+Lemma W_CInsertBlockAfter : forall r blocks t, step_ok (CInsertBlockAfter r blocks t).
+Proof. intros r blocks t. w_unit. split; [exact (insert_block_after_WF _ _ _ _ _ _ W (proj1 AL) (proj1 (proj2 AL)) (proj1 (proj2 (proj2 AL))) (proj2 (proj2 (proj2 AL))) E)|exact (parents_ok_by_region _ r _ _ _ (insert_block_after_par _ _ r blocks t) W PO (proj1 AL) E)]. Qed.
+Lemma W_CInsertBlock : forall r blocks i, step_ok (CInsertBlock r blocks i).
+Proof. intros r blocks i. w_unit. split; [exact (insert_block_WF _ _ _ _ _ _ W (proj1 AL) (proj2 AL) E)|exact (parents_ok_by_region _ r _ _ _ (insert_block_par _ _ r blocks i) W PO (proj1 AL) E)]. Qed.
+Lemma W_CRwInsertBlock : forall blocks r ib, step_ok (CRwInsertBlock blocks r ib).
+Proof. intros blocks r ib. w_unit. split; [exact (rw_insert_block_WF _ _ _ _ _ _ W (proj1 AL) (proj1 (proj2 AL)) (proj2 (proj2 AL)) E)|exact (parents_ok_by_region _ r _ _ _ (rw_insert_block_par _ _ blocks r ib) W PO (proj1 AL) E)]. Qed.
+Lemma W_CDetachBlock : forall r b, step_ok (CDetachBlock r b).
+Proof. intros r b. w_lift. split; [exact (detach_block_WF _ _ _ _ _ W (proj1 AL) (proj2 AL) E)|p_nobody detach_block_par]. Qed.
+Lemma W_CDetachBlockIdx : forall r i, step_ok (CDetachBlockIdx r i).
+Proof. intros r i. w_lift. split; [exact (detach_block_idx_WF _ _ _ _ _ W AL E)|p_nobody detach_block_idx_par]. Qed.
+Lemma W_CMoveBlocks : forall r d, step_ok (CMoveBlocks r d).
+Proof. intros r d. w_unit. split; [exact (move_blocks_WF _ _ _ _ _ W (proj1 AL) (proj2 AL) E)|exact (move_blocks_parents_ok _ _ _ _ _ W PO (proj2 AL) E)]. Qed.
+Lemma W_CBlockNew : forall ops nargs, step_ok (CBlockNew ops nargs).
+Proof. intros ops nargs. w_lift. split; [exact (proj1 (block_new_inv _ _ _ _ _ W PO AL E))|exact (proj2 (block_new_inv _ _ _ _ _ W PO AL E))]. Qed.
+Lemma W_CRegionNew : forall blocks, step_ok (CRegionNew blocks).
+Proof. intros blocks. w_lift. split; [exact (proj1 (region_new_inv _ _ _ _ W PO AL E))|exact (proj2 (region_new_inv _ _ _ _ W PO AL E))]. Qed.
+Lemma W_COpCreate : forall operands nres succs regions, step_ok (COpCreate operands nres succs regions).
+Proof. intros operands nres succs regions. w_lift. split; [exact (proj1 (op_create_inv _ _ _ _ _ _ _ W PO E))|exact (proj2 (op_create_inv _ _ _ _ _ _ _ W PO E))]. Qed.
+
 Lemma W_COpDetach : forall o, step_ok (COpDetach o).
 Proof.
-  intros o. w_unit. destruct AL as [OL BL]. unfold op_detach in E.
+  intros o. w_unit. split; [|p_nobody op_detach_par]. destruct AL as [OL BL]. unfold op_detach in E.
   apply bind_ok in E as (s0 & x & Hg & E). apply getO_ok in Hg as [-> F].
   destruct (o_parent x) as [b|] eqn:P; [|exfalso; eapply raise_ok; eauto].
   apply bind_ok in E as (s1 & a & E & R). apply ret_ok in R as [-> _].
   exact (detach_op_WF _ _ _ _ _ W (BL x b F P) OL E).
 Qed.
-Lemma W_CReplaceAllUsesWith : forall v w, step_ok (CReplaceAllUsesWith v w).
-Proof. intros v w. w_unit. exact (replace_all_uses_with_WF _ _ _ _ _ W E). Qed.
-Lemma W_CReplaceUsesWithIf : forall v w sel, step_ok (CReplaceUsesWithIf v w sel).
-Proof. intros v w sel. w_unit. exact (replace_uses_with_if_WF _ _ _ _ _ _ W E). Qed.
-Lemma W_CValueErase : forall v safe, step_ok (CValueErase v safe).
-Proof. intros v safe. w_unit. exact (value_erase_WF _ _ _ _ _ W E). Qed.
-Lemma W_CInsertOpAfter : forall b n e, step_ok (CInsertOpAfter b n e).
-Proof. intros b n e. w_unit. destruct AL as [A1 A2]. exact (insert_op_after_WF _ _ _ _ _ _ W A1 A2 E). Qed.
-Lemma W_CInsertOpBefore : forall b n e, step_ok (CInsertOpBefore b n e).
-Proof. intros b n e. w_unit. destruct AL as [A1 A2]. exact (insert_op_before_WF _ _ _ _ _ _ W A1 A2 E). Qed.
-Lemma W_CAddOp : forall b o, step_ok (CAddOp b o).
-Proof. intros b o. w_unit. destruct AL as [A1 A2]. exact (add_op_WF _ _ _ _ _ W A1 A2 E). Qed.
-Lemma W_CDetachOp : forall b o, step_ok (CDetachOp b o).
-Proof. intros b o. w_lift. destruct AL as [A1 A2]. exact (detach_op_WF _ _ _ _ _ W A1 A2 E). Qed.
-Lemma W_CInsertArg : forall b i, step_ok (CInsertArg b i).
-Proof. intros b i. w_lift. exact (insert_arg_WF _ _ _ _ _ W AL E). Qed.
-Lemma W_CPrInsertBlockArgument : forall b i, step_ok (CPrInsertBlockArgument b i).
-Proof. intros b i. w_lift. exact (insert_arg_WF _ _ _ _ _ W AL E). Qed.
-Lemma W_CEraseArg : forall b v safe, step_ok (CEraseArg b v safe).
-Proof. intros b v safe. w_unit. destruct AL as [A1 A2]. exact (erase_arg_WF _ _ _ _ _ _ W A1 A2 E). Qed.
+
+Lemma pr_erase_block_argument_par : forall PB PR PO v safe,
+  preserves (par_rel PB PR PO) (pr_erase_block_argument v safe).
+Proof.
+  intros. unfold pr_erase_block_argument.
+  apply (pres_bind _ (fr_par PB PR PO)); [apply pr_replace_all_uses_with_par|intros _].
+  apply (pres_bind _ (fr_par PB PR PO)); [apply (pres_getV _ (fr_par PB PR PO))|intro ar].
+  destruct (v_kind ar); [apply (pres_raise _ (fr_par PB PR PO))|apply erase_arg_par|apply (pres_raise _ (fr_par PB PR PO))].
+Qed.
 Lemma W_CPrEraseBlockArgument : forall v safe, step_ok (CPrEraseBlockArgument v safe).
-Proof. intros v safe. w_unit. destruct AL as [A1 A2]. exact (pr_erase_block_argument_WF _ _ _ _ _ W A1 A2 E). Qed.
-Lemma W_CAddOps : forall b ops, step_ok (CAddOps b ops).
-Proof. intros b ops. w_unit. destruct AL as [A1 A2]. exact (add_ops_WF _ _ _ _ _ W A1 A2 E). Qed.
-Lemma W_CInsertOpsBefore : forall b ops e, step_ok (CInsertOpsBefore b ops e).
-Proof. intros b ops e. w_unit. destruct AL as [A1 A2]. exact (insert_ops_before_WF _ _ _ _ _ _ W A1 A2 E). Qed.
-Lemma W_CInsertOpsAfter : forall b ops e, step_ok (CInsertOpsAfter b ops e).
-Proof. intros b ops e. w_unit. destruct AL as (A1 & A2 & A3). exact (insert_ops_after_WF _ _ _ _ _ _ W A1 A2 A3 E). Qed.
-Lemma W_CRwInsertOp : forall pr ops b ib, step_ok (CRwInsertOp pr ops b ib).
-Proof. intros pr ops b ib. w_unit. destruct AL as (A1 & A2 & A3). exact (rw_insert_op_WF _ _ _ _ _ _ W A1 A2 A3 E). Qed.
-Lemma W_CAddBlock : forall r blocks, step_ok (CAddBlock r blocks).
-Proof. intros r blocks. w_unit. destruct AL as [A1 A2]. exact (add_block_WF _ _ _ _ _ W A1 A2 E). Qed.
-Lemma W_CInsertBlockBefore : forall r blocks t, step_ok (CInsertBlockBefore r blocks t).
-Proof. intros r blocks t. w_unit. destruct AL as (A1 & A2 & A3). exact (insert_block_before_WF _ _ _ _ _ _ W A1 A2 A3 E). Qed.
-Lemma W_CInsertBlockAfter : forall r blocks t, step_ok (CInsertBlockAfter r blocks t).
-Proof. intros r blocks t. w_unit. destruct AL as (A1 & A2 & A3 & A4). exact (insert_block_after_WF _ _ _ _ _ _ W A1 A2 A3 A4 E). Qed.
-Lemma W_CInsertBlock : forall r blocks i, step_ok (CInsertBlock r blocks i).
-Proof. intros r blocks i. w_unit. destruct AL as [A1 A2]. exact (insert_block_WF _ _ _ _ _ _ W A1 A2 E). Qed.
-Lemma W_CDetachBlock : forall r b, step_ok (CDetachBlock r b).
-Proof. intros r b. w_lift. destruct AL as [A1 A2]. exact (detach_block_WF _ _ _ _ _ W A1 A2 E). Qed.
-Lemma W_CDetachBlockIdx : forall r i, step_ok (CDetachBlockIdx r i).
-Proof. intros r i. w_lift. exact (detach_block_idx_WF _ _ _ _ _ W AL E). Qed.
-Lemma W_CMoveBlocks : forall r d, step_ok (CMoveBlocks r d).
-Proof. intros r d. w_unit. destruct AL as [A1 A2]. exact (move_blocks_WF _ _ _ _ _ W A1 A2 E). Qed.
+Proof.
+  intros v safe. w_unit. split; [|p_nobody pr_erase_block_argument_par].
+  exact (pr_erase_block_argument_WF _ _ _ _ _ W (proj1 AL) (proj2 AL) E).
+Qed.
+
 Lemma W_CMoveBlocksBefore : forall r t, step_ok (CMoveBlocksBefore r t).
 Proof.
-  intros r t. w_unit. destruct AL as [A1 (tx & region & F & Et & Pt & RL)].
-  exact (move_blocks_before_WF _ _ _ _ _ _ _ W A1 F Et Pt RL E).
+  intros r t. w_unit. destruct AL as [A1 (tx & region & F & Et & Pt & RL)]. split.
+  - exact (move_blocks_before_WF _ _ _ _ _ _ _ W A1 F Et Pt RL E).
+  - exact (move_blocks_before_parents_ok _ _ _ _ _ _ _ W PO F Pt RL E).
 Qed.
-Lemma W_CRwInsertBlock : forall blocks region ib, step_ok (CRwInsertBlock blocks region ib).
-Proof. intros blocks region ib. w_unit. destruct AL as (A1 & A2 & A3). exact (rw_insert_block_WF _ _ _ _ _ _ W A1 A2 A3 E). Qed.
+
 Lemma W_CRwInlineRegion : forall pr r dest ib, step_ok (CRwInlineRegion pr r dest ib).
 Proof.
   intros pr r dest ib. w_unit. destruct AL as (A1 & A2 & A3).
   unfold rw_inline_region in E. apply bind_ok in E as (s0 & ? & Hc & E).
   destruct (check_bip_ok _ _ _ _ _ Hc) as [-> CK]. destruct ib as [t|].
   - destruct (CK t eq_refl) as (br & F & P). destruct A3 as (br' & F' & Eb). rewrite F in F'. injection F' as <-.
-    exact (move_blocks_before_WF _ _ _ _ _ _ _ W A1 F Eb P A2 E).
-  - exact (move_blocks_WF _ _ _ _ _ W A1 A2 E).
+    split; [exact (move_blocks_before_WF _ _ _ _ _ _ _ W A1 F Eb P A2 E)|
+            exact (move_blocks_before_parents_ok _ _ _ _ _ _ _ W PO F P A2 E)].
+  - split; [exact (move_blocks_WF _ _ _ _ _ W A1 A2 E)|exact (move_blocks_parents_ok _ _ _ _ _ W PO A2 E)].
 Qed.
-Lemma W_CPrReplaceAllUsesWith : forall v w safe, step_ok (CPrReplaceAllUsesWith v w safe).
-Proof. intros v w safe. w_unit. exact (pr_replace_all_uses_with_WF _ _ _ _ _ _ W E). Qed.
-Lemma W_CPrReplaceUsesWithIf : forall v w sel, step_ok (CPrReplaceUsesWithIf v w sel).
-Proof. intros v w sel. w_unit. exact (pr_replace_uses_with_if_WF _ _ _ _ _ _ W E). Qed.
+
+(* Rewriter.move_region_contents_to_new_regions: a fresh region, then move_blocks into it *)
+Lemma region_new_empty_facts : forall s s' r, WF s -> region_new [] s = (s', Ok r) ->
+  reg_live s' r /\ (forall q, reg_live s q -> reg_live s' q).
+Proof.
+  intros s s' r W H. unfold region_new in H.
+  apply bind_ok in H as (s1 & r1 & Ha & H). unfold allocR in Ha. injection Ha as <- <-.
+  apply bind_ok in H as (s2 & ? & Hb & H). apply ret_ok in H as [<- ->].
+  unfold add_block in Hb. apply bind_ok in Hb as (s3 & rr & Hg & Hb). apply getR_ok in Hg as [-> F].
+  simpl in F. rewrite find_add_same in F. injection F as <-. simpl in Hb. apply ret_ok in Hb as [-> _].
+  split.
+  - exists (mkRegion None None None false). simpl. rewrite find_add_same. auto.
+  - intros q (xq & Fq & Eq). exists xq. simpl. rewrite find_add. destruct (Pos.eqb_spec q (n_region s)) as [->|N]; [|auto].
+    exfalso. destruct (wf_alloc s W) as (_ & _ & B & _). specialize (B _ _ Fq). lia.
+Qed.
+
+Lemma W_CRwMoveRegionContents : forall pr r, step_ok (CRwMoveRegionContents pr r).
+Proof.
+  intros pr r. w_lift. unfold rw_move_region_contents_to_new_regions in E.
+  apply bind_ok in E as (s1 & nr & Hn & E). apply bind_ok in E as (s2 & ? & Hm & E). apply ret_ok in E as [<- _].
+  destruct (region_new_inv _ _ _ _ W PO (fun b (I : In b []) => match I with end) Hn) as [W1 PO1].
+  destruct (region_new_empty_facts _ _ _ W Hn) as [L1 L2].
+  split; [exact (move_blocks_WF _ _ _ _ _ W1 (L2 r AL) L1 Hm)|exact (move_blocks_parents_ok _ _ _ _ _ W1 PO1 L1 Hm)].
+Qed.
+
+(* Builder.create_block *)
+Lemma W_CCreateBlock : forall r ib nargs, step_ok (CCreateBlock r ib nargs).
+Proof.
+  intros r ib nargs. w_lift. destruct AL as [A1 A2].
+  destruct (parents_ok_fresh s PO) as (FB & _ & _).
+  split.
+  - eapply (create_block_WF s s' r ib nargs a W A1 A2); [|exact E].
+    intros s1 b1 Hb. destruct (block_new_empty_spec _ _ _ _ W FB Hb) as (W1 & _ & L1 & _).
+    destruct (block_new_empty_live _ _ _ _ W FB Hb) as (Q1 & Q2 & Q3).
+    split; [exact W1|]. split; [exact L1|]. split; [exact Q1|split; [exact Q2|exact Q3]].
+  - unfold create_block in E. apply bind_ok in E as (s0 & ? & Hc & E).
+    destruct (check_bip_ok _ _ _ _ _ Hc) as [-> _].
+    apply bind_ok in E as (s1 & b1 & Hb & E). apply bind_ok in E as (s2 & ? & Hi & E). apply ret_ok in E as [<- _].
+    destruct (block_new_empty_spec _ _ _ _ W FB Hb) as (W1 & _ & _).
+    destruct (block_new_empty_live _ _ _ _ W FB Hb) as (_ & _ & Q3).
+    pose proof (block_new_parents_ok _ _ _ _ _ PO Hb) as PO1.
+    exact (parents_ok_by_region _ r _ _ _ (rw_insert_block_par _ _ [b1] r ib) W1 PO1 (Q3 r A1) Hi).
+Qed.
 
 Create HintDb wstep discriminated.
-#[export] Hint Resolve W_CSetOperands W_CSetSuccessors W_COperandSetItem W_CSuccessorSetItem W_CAddRegion W_CDetachRegion
-  W_CDetachRegionIdx W_COpDetach W_CReplaceAllUsesWith W_CReplaceUsesWithIf W_CValueErase W_CInsertOpAfter W_CInsertOpBefore
-  W_CAddOp W_CDetachOp W_CInsertArg W_CPrInsertBlockArgument W_CEraseArg W_CPrEraseBlockArgument W_CAddOps W_CInsertOpsBefore W_CInsertOpsAfter W_CRwInsertOp W_CAddBlock W_CInsertBlockBefore
-  W_CInsertBlockAfter W_CInsertBlock W_CDetachBlock W_CDetachBlockIdx W_CMoveBlocks W_CMoveBlocksBefore
-  W_CRwInsertBlock W_CRwInlineRegion W_CPrReplaceAllUsesWith W_CPrReplaceUsesWithIf : wstep.
+#[export] Hint Resolve W_CSetOperands W_CSetSuccessors W_COperandSetItem W_CSuccessorSetItem W_CAddRegion W_CDetachRegion W_CDetachRegionIdx W_CReplaceAllUsesWith W_CReplaceUsesWithIf W_CValueErase W_CPrReplaceAllUsesWith W_CPrReplaceUsesWithIf W_CInsertArg W_CPrInsertBlockArgument W_CEraseArg W_CInsertOpAfter W_CInsertOpBefore W_CAddOp W_CDetachOp W_CAddOps W_CInsertOpsBefore W_CInsertOpsAfter W_CRwInsertOp W_CAddBlock W_CInsertBlockBefore W_CInsertBlockAfter W_CInsertBlock W_CRwInsertBlock W_CDetachBlock W_CDetachBlockIdx W_CMoveBlocks W_CBlockNew W_CRegionNew W_COpCreate W_COpDetach W_CPrEraseBlockArgument W_CMoveBlocksBefore W_CRwInlineRegion W_CRwMoveRegionContents W_CCreateBlock : wstep.
+
+Definition Inv (s : state) : Prop := WF s /\ parents_ok s.
+
+Theorem empty_Inv : Inv empty_state.
+Proof. split; [exact empty_WF|exact empty_parents_ok]. Qed.
 
 Theorem step_preserves : forall s c p,
-  WF s -> proved_call c = true -> args_live s c -> snd (step s c) = Ok p -> WF (fst (step s c)).
+  Inv s -> proved_call c = true -> args_live s c -> snd (step s c) = Ok p -> Inv (fst (step s c)).
 Proof.
-  intros s c p W PC AL H. unfold step in *. destruct (do_call c s) as [s' r] eqn:E. simpl in *. subst r.
+  intros s c p [W PO] PC AL H. unfold step in *. destruct (do_call c s) as [s' r] eqn:E. simpl in *. subst r.
   destruct c; try (simpl in PC; discriminate);
     match goal with E0 : do_call ?c0 _ = _ |- _ =>
-      let L := fresh "L" in assert (L : step_ok c0) by auto with wstep; exact (L _ _ _ W PC AL E0) end.
+      let L := fresh "L" in assert (L : step_ok c0) by auto with wstep; exact (L _ _ _ W PO PC AL E0) end.
 Qed.
 
 (* a history all of whose calls are proved constructors applied to live arguments and none of
@@ -206,12 +284,15 @@ Inductive clean : state -> list call -> Prop :=
     proved_call c = true -> args_live s c -> snd (step s c) = Ok p ->
     clean (fst (step s c)) r -> clean s (c :: r).
 
-Theorem history_preserves : forall cs s, WF s -> clean s cs -> WF (run cs s).
+Theorem history_preserves : forall cs s, Inv s -> clean s cs -> Inv (run cs s).
 Proof.
   induction cs as [|c r IH]; intros s W C; simpl.
   - exact W.
   - inversion C; subst. apply IH; [eapply step_preserves; eauto|assumption].
 Qed.
+
+Theorem history_from_empty : forall cs, clean empty_state cs -> WF (run cs empty_state).
+Proof. intros cs C. exact (proj1 (history_preserves cs empty_state empty_Inv C)). Qed.
 
 (* ------------------------------------------------------------------ refutation witnesses *)
 
